@@ -14,7 +14,7 @@ from vlib.nlp import NLP, Rows, subtract_rows, close, DMa
 
 ID = "C17"
 LEVEL = "exploration"
-BUDGET = {"quick": (8, 50), "thorough": (16, 800)}
+BUDGET = {"quick": (8, 50), "thorough": (16, 1500)}
 RULE = ("Three generated families. micro: eval_on_knots / bspline_derivative / get_greville_points for degree 0..4, N 1..8, uniform and random non-uniform knot vectors, refine 1..5, vector-valued random "
         "coefficients, compared with scipy.interpolate.BSpline on the clamped knot vector. signal: a grid='bspline' variable (rows 1..2, order 0..4) and parameter (known coefficients) under "
         "MultipleShooting/DirectCollocation on uniform/geometric/function grids, fixed/free T: samples on control, integrator, integrator+refine and integrator_roots grids must equal scipy's spline of the "
